@@ -813,6 +813,16 @@ def r6_10(ctx):
             stale = w
             break
     ctx.paths_explored += 1
+    # ... and the test *acts*: the admission is reached only with `deleted` known to be false (the arm on which it is true
+    # leaves - a test whose refusing arm was emptied protects nothing)
+    def _cls(e, recv=recv):
+        return "deleted" if isinstance(e, ast.Attribute) and e.attr == "deleted" and norm(e.value) == recv else None
+
+    unacted = flow.feasible_paths_exist(g, g.entry, adm, _cls, labels=flow.NORMAL, accept=lambda _n, facts: facts.get("deleted") is not False) if stale is None else None
+    ctx.paths_explored += 1
+    if unacted:
+        ctx.bad("R6.10", fi.module, fi.qual, f"if {recv}.deleted: raise ...", f"copy() tests `{recv}.deleted` but still reaches ready_and_okay({recv}) when it is true: the APPEND is queued on a mailbox whose queue nobody serves and COPY/MOVE is answered by the watchdog only", g.nodes[unacted[0][-1]].line, flow.fmt_path(g, unacted[0]))
+        return
     if stale is not None:
         ctx.bad("R6.10", fi.module, fi.qual, f"suspension point between `if {recv}.deleted` and ready_and_okay({recv})", f"copy() can suspend (`{norm(g.nodes[stale].ast, 60)}`) after it tested that the destination exists and before it queues its APPEND there: a DELETE of the destination that completes in between leaves the APPEND on a queue nobody serves - COPY/MOVE hangs until the watchdog answers", g.nodes[stale].line)
     else:
